@@ -14,6 +14,8 @@ pub struct Inner {
 }
 pub fn inner(some: bool) -> Inner { Inner { in_z: "s".to_string(), in_b: if some { Some(7) } else { None }, in_a: "s".to_string() } }
 pub fn s() -> String { "s".to_string() }
+/// `#[serde(default = "crate::common::dflt")]`: a default named by its function (any field type of the generated definitions)
+pub fn dflt<T: Default>() -> T { T::default() }
 pub fn ser<T: Serialize>(t: &T) -> Result<Value, String> { serde_json::to_value(t).map_err(|e| e.to_string()) }
 pub fn schema_json<T: Schema>() -> Value {
     let r: SchemaRef = <T as Schema>::schema().into();
